@@ -1,7 +1,7 @@
 #!/bin/bash
 set -e
 . $MC/par.sh
-CF="-std=c++17 -O1 -g -fsanitize=address -fno-omit-frame-pointer -fno-access-control -I$REPO -I$MC"
+CF="-std=c++17 -O1 -g -fsanitize=address -fno-omit-frame-pointer -I$REPO -I$MC"
 par g++ -c $CF $VERIF/harness/c01/c01_lists.cpp -o $BUILD/h.o
 par g++ -c $CF $REPO/igris/container/dlist.cpp -o $BUILD/dlist.o
 par g++ -std=c++17 -O2 -c -I$MC $MC/mc.cpp -o $BUILD/mc.o
